@@ -1,10 +1,10 @@
 SPECIFICATION MCSpec
 CONSTANTS
-  Actors = {"a1", "a2", "a3", "a4"}
+  Actors = {"a1", "a2", "a3"}
   Victims = {}
-  Prog <- P4
+  Prog <- P3m
   Dur <- D
-  InitVal = 0
+  InitVal = 1
   TimeoutPath = "as_written"
 INVARIANTS NeverOverdrawn QuiescentValue PopNeverEmpty
 VIEW View
